@@ -532,9 +532,57 @@ Proof.
   cbn [fst]. now apply request_local_not_recorded.
 Qed.
 
-Theorem zone_failure_local_not_admitted ze be ce x :
-  ze || be || ce || cause_local x = true -> zone_failure_admitted ze be ce x = false.
+Theorem zone_failure_local_not_admitted ze be ce ob x :
+  ze || be || ce || ob || cause_local x = true -> zone_failure_admitted ze be ce ob x = false.
 Proof. unfold zone_failure_admitted. intros ->. reflexivity. Qed.
+
+(* ---- glue-less delegations -------------------------------------------------------------- *)
+Lemma glueless_walk_noauth hosts limited k n :
+  glueless_walk hosts limited k = (GLNoAuth, n) ->
+  limited = false /\ forallb nshost_no_addr hosts = true /\ n = (k + length hosts)%nat.
+Proof.
+  revert limited k. induction hosts as [|[| |x] r IH]; intros limited k E; cbn in E.
+  - destruct limited; [discriminate|]. injection E as <-. repeat split. cbn. lia.
+  - apply IH in E as (L & F & N). cbn [forallb nshost_no_addr length]. repeat split; auto. lia.
+  - apply IH in E as (L & _ & _). discriminate.
+  - discriminate.
+Qed.
+Lemma glueless_walk_local hosts limited k x n :
+  Forall (fun h => match h with NHFatal y => fatal_cause y = true | _ => True end) hosts ->
+  glueless_walk hosts limited k = (GLLocal x, n) -> cause_local x = true.
+Proof.
+  intros F. revert limited k. induction F as [|h r Hh _ IH]; intros limited k E; cbn in E.
+  - destruct limited; [|discriminate]. injection E as <- _. reflexivity.
+  - destruct h as [| |y]; [now apply IH in E | now apply IH in E|].
+    injection E as <- _. destruct y; cbn in Hh; try discriminate; reflexivity.
+Qed.
+(* a zone failure is filed only when every host was looked up and had no address; every other end
+   of the walk is a request-local cause, which recordResolutionZoneFailure would refuse as well *)
+Theorem glueless_publishes_only_when_every_host_had_no_address hosts be ce ob :
+  glueless_published hosts be ce ob = true ->
+  forallb nshost_no_addr hosts = true /\ snd (glueless hosts) = length hosts /\ be || ce || ob = false.
+Proof.
+  unfold glueless_published, glueless. destruct (glueless_walk hosts false 0) as [o n] eqn:E. cbn [fst snd].
+  destruct o; [|discriminate]. intros P.
+  apply glueless_walk_noauth in E as (_ & F & N). repeat split; auto.
+  unfold zone_failure_admitted in P. cbn in P. destruct be, ce, ob; cbn in *; congruence.
+Qed.
+Theorem glueless_other_ends_are_request_local hosts x be ce ob :
+  Forall (fun h => match h with NHFatal y => fatal_cause y = true | _ => True end) hosts ->
+  fst (glueless hosts) = GLLocal x ->
+  cause_local x = true /\ zone_failure_admitted false be ce ob x = false.
+Proof.
+  intros F E. unfold glueless in E. destruct (glueless_walk hosts false 0) as [o n] eqn:W. cbn in E. subst o.
+  pose proof (glueless_walk_local _ _ _ _ _ F W) as L. split; [exact L|].
+  apply zone_failure_local_not_admitted. rewrite L. now rewrite !orb_true_r.
+Qed.
+Example ex_glueless :
+  glueless [NHNoAddr; NHAttemptLimit; NHNoAddr] = (GLLocal CAttemptLimit, 3%nat) /\
+  glueless [NHNoAddr; NHNoAddr] = (GLNoAuth, 2%nat) /\
+  glueless_published [NHNoAddr; NHNoAddr] false false false = true /\
+  glueless_published [NHNoAddr; NHNoAddr] false false true = false /\
+  glueless [NHNoAddr; NHFatal CWorkLimit; NHNoAddr] = (GLLocal CWorkLimit, 2%nat).
+Proof. repeat split; reflexivity. Qed.
 
 (* a zone failure is published only for a zone every one of whose servers
    failed to give a usable response *)
@@ -659,7 +707,8 @@ Example ex_idle_restart :
 Proof. vm_compute. reflexivity. Qed.
 (* a request-local cause, and a store with the switch off *)
 Example ex_request_local : request_local (mk_req_local false true false false) = true /\
-  zone_failure_admitted false false false CAttemptLimit = false /\ zone_failure_admitted false false false CNetwork = true.
+  zone_failure_admitted false false false false CAttemptLimit = false /\ zone_failure_admitted false false false false CNetwork = true /\
+  zone_failure_admitted false false false true CNetwork = false.
 Proof. repeat split; reflexivity. Qed.
 Example ex_disabled_store_keeps_state :
   let s := mk_store ex_probe_state true in
